@@ -146,7 +146,10 @@ pub fn discipline_monitor(op: &Op, out: &ExecOut, counts: &mut BTreeMap<String, 
         if matches!(name, "gettid" | "getpid" | "tgkill") { continue; }
         let maskp = |p: &str| -> String { let mut o = String::new(); let mut ind = false; for c in p.chars() { if c.is_ascii_digit() { if !ind { o.push('#'); ind = true; } } else { ind = false; o.push(c); } } o };
         let abs = ev.path.as_deref().filter(|p| p.starts_with('/')).map(|p| format!(":{}", maskp(p))).unwrap_or_default();
-        let mut bad = |rule: &str, why: &str| v.push((format!("{}:{}{}", rule, name, if rule.starts_with("R4") || rule.starts_with("R1-dirfd") { abs.clone() } else { String::new() }), format!("{} violates {}: {}", ev.brief(), rule, why)));
+        // multi-component relative paths on procfs are keyed by their (digit-masked) spelling too, so that a known finding about one
+        // probe does not hide another one
+        let rel = ev.path.as_deref().filter(|p| !p.starts_with('/') && p.contains('/') && ev.fdid.as_ref().map(|i| i.fstype) == Some(PROC_MAGIC)).map(|p| format!(":{}", maskp(p))).unwrap_or_default();
+        let mut bad = |rule: &str, why: &str| v.push((format!("{}:{}{}", rule, name, if rule.starts_with("R4") || rule.starts_with("R1-dirfd") { abs.clone() } else if rule == "R1-single" { rel.clone() } else { String::new() }), format!("{} violates {}: {}", ev.brief(), rule, why)));
         // descriptor-creating calls: close-on-exec
         match name {
             "dup" | "dup2" => bad("cloexec", "dup/dup2 cannot set close-on-exec"),
@@ -429,6 +432,35 @@ pub fn items(prop: &str, tier: &str) -> Vec<Item> {
                                c("create_file").path("cwd-victim-file").flags(O_WRONLY).mode(0o644), c("readlink").path("a/b/lnk").bufsize(64), c("rename").path("a").path2("b").flags(0), c("mkdir").path("cwd-victim-dir").mode(0o755)];
                 let scs: Vec<Scenario> = ops.into_iter().map(|op| Scenario { name: format!("K/atfdcwd:{}", op.brief()), backend: "K".into(), op, path: String::new() }).collect();
                 bundle("capi-atfdcwd", scs, 40, true, 0, &mut v);
+            }
+            // error and fallback paths ("success and error paths alike"): the same automaton on every syscall of executions that
+            // are disturbed by one injected errno (fallbacks taken only when statx / openat2 / the mount API misbehave, error
+            // formatting, retry loops) or by one attacker mutation (walks that meet a symlink or a foreign directory where the
+            // undisturbed walk met a directory)
+            {
+                let mut f: Vec<Scenario> = Vec::new();
+                f.extend(lookup_scenarios(th).into_iter().step_by(if th { 2 } else { 9 }));
+                f.extend(mutating_scenarios(th).into_iter().step_by(if th { 1 } else { 5 }));
+                f.extend(handle_scenarios(th).into_iter().step_by(if th { 1 } else { 5 }));
+                for s in f.clone() {
+                    let mut it = item(s, Plan::Fault { bound: 1, cfg: FaultCfg { all_syscalls: th, per_class: if th { 4 } else { 1 }, eagain_runs: vec![16], exhaustion: true, custom: None } }, if th { 40_000 } else { 2_500 });
+                    it.scen.name = format!("faulted:{}", it.scen.name);
+                    v.push(it);
+                }
+                for s in f.iter().filter(|s| !s.path.is_empty() && !s.op.name.starts_with("proc_") && s.op.name != "reopen").step_by(if th { 1 } else { 2 }).cloned() {
+                    let mut it = item(s, Plan::Attack { bound: 1, full: th }, if th { 20_000 } else { 2_500 });
+                    it.scen.name = format!("attacked:{}", it.scen.name);
+                    v.push(it);
+                }
+                // cold: the first-use initialisation (backend probe, procfs handle construction, sysctl read) under faults
+                for s in f.into_iter().filter(|s| s.path == "a/b/lnk/f" || s.op.name == "reopen" || s.op.name == "mkdir_all").step_by(if th { 1 } else { 3 }) {
+                    for mapi in if th { vec![0u8, 1, 2] } else { vec![0u8] } {
+                        let mut it = item(s.clone(), Plan::Fault { bound: 1, cfg: FaultCfg { all_syscalls: th, per_class: if th { 3 } else { 1 }, eagain_runs: vec![], exhaustion: false, custom: None } }, if th { 40_000 } else { 2_500 });
+                        it.warm = false; it.mount_api = mapi;
+                        it.scen.name = format!("faulted-cold{}:{}", mapi, it.scen.name);
+                        v.push(it);
+                    }
+                }
             }
             // cold lazies and "no new mount API" on a smaller family
             let small: Vec<Scenario> = all.iter().step_by(if th { 2 } else { 9 }).cloned().collect();
